@@ -3,8 +3,8 @@
 Every input has exactly known structure.  A bipartite pure state is psi = (U (x) V) sum_i s_i |i i> with a chosen Schmidt
 vector s (rational: psi is then a vector over Q[i], computed by the Lean model `kronApply`, and the float handed to toqito is its
 correctly rounded image; or with rational squares only) and exact rational Cayley unitaries U, V.  The Lean driver supplies the
-exact oracles: Schmidt rank (Gaussian elimination over Q[i] on the mirror of `np.reshape(rho, dim)`, cross-checked by the verified
-rank-certificate checker `rankCert`), operator Schmidt rank (mirror of `_operator_schmidt_rank` = rank of the realigned matrix),
+exact oracles: Schmidt rank (Gaussian elimination over Q[i] on the mirror of `np.reshape(rho, dim)`, proved equal to Matrix.rank
+(`C14.rankQ_eq_rank`, `schmidtRankVec_eq_rank`, `schmidtRankOp_eq_rank`) and cross-checked by the verified rank-certificate checker `rankCert`), operator Schmidt rank (mirror of `_operator_schmidt_rank` = rank of the realigned matrix),
 product verdicts (all 2x2 minors vanish), purity tr rho^2, and the closed forms (negativity, log-negativity argument, squared
 Schmidt coefficients, S(k) vector norm squared, concurrence) as exact rationals.  Integer / boolean results are compared exactly,
 floats within the stated tolerances."""
